@@ -3,8 +3,8 @@
    governed line holding EVERY comment that governs it (fix 1caf294), parse_suppression_set).
    Declarative side, written from the property text: Rule/ScanSpec.v ([is_supp_comment],
    [own_line], [governed_line], [silenced]).  Proofs: Rule/ScanProofs.v. *)
-From Coq Require Import List NArith ZArith Bool Arith.
-From AG Require Import Base.Val Base.Sort Tree.Tree Tree.Wf Rule.Rule Rule.Traversal Rule.Scan Rule.ScanSpec Rule.ScanProofs.
+From Coq Require Import List NArith ZArith Bool Arith Permutation.
+From AG Require Import Base.Val Base.Sort Tree.Tree Tree.Wf Rule.Rule Rule.Traversal Rule.Scan Rule.ScanSpec Rule.ScanProofs Rule.ScanView Rule.ScanViewProofs.
 Import ListNotations.
 
 (* a finding is suppressed if and only if a suppression comment governs the line where it starts
@@ -50,3 +50,44 @@ Example C14_ids_ex :
   parse_suppression_set ([47;47;32] ++ IGNORE_TEXT)%N = None.
 Proof. split; vm_compute; reflexivity. Qed.
 Print Assumptions C14_ids_ex.
+
+(* the view that separates fixable findings (scan --interactive / -U) and the plain view deliver the same
+   findings and the same unused suppressions, each exactly once *)
+Theorem C14_views_agree :
+  forall root rules res,
+    Permutation (view_all (into_view root rules true res)) (reported res) /\
+    Permutation (view_all (into_view root rules false res)) (reported res) /\
+    Permutation (view_all (into_view root rules true res)) (view_all (into_view root rules false res)).
+Proof.
+  intros root rules res. split; [apply ScanViewProofs.view_complete|].
+  split; [apply ScanViewProofs.view_complete | apply ScanViewProofs.view_same].
+Qed.
+Print Assumptions C14_views_agree.
+
+(* the diffs of the separated view are the findings of fixing rules and the unused suppressions, by start offset *)
+Theorem C14_view_diffs :
+  forall root rules res,
+    key_sorted (fun p => start_of_id root (snd p)) (v_diffs (into_view root rules true res)) /\
+    v_diffs (into_view root rules false res) = [] /\
+    (forall p, In p (v_diffs (into_view root rules true res)) <->
+       (In p (res_found res) /\ has_fix rules (fst p) = true) \/ (exists u, In u (res_unused res) /\ p = (UNUSED_ID, u))).
+Proof.
+  intros root rules res. destruct (ScanViewProofs.view_diffs_sorted root rules res) as [H1 H2].
+  split; [exact H1|]. split; [exact H2|]. intros p. apply ScanViewProofs.view_diffs_are.
+Qed.
+Print Assumptions C14_view_diffs.
+
+(* non-vacuity: a fixing rule's finding at offset 20, a plain finding, unused suppressions at offsets 0 and 40 *)
+Example C14_view_ex :
+  let root := T {| nid := 1; nkind := 1; nnamed := true; ncomment := false; nmissing := false; nfld := 0; ns := 0; ne := 60 |}
+                [T {| nid := 2; nkind := 2; nnamed := true; ncomment := false; nmissing := false; nfld := 0; ns := 0; ne := 10 |} [];
+                 T {| nid := 3; nkind := 3; nnamed := true; ncomment := false; nmissing := false; nfld := 0; ns := 20; ne := 30 |} [];
+                 T {| nid := 4; nkind := 3; nnamed := true; ncomment := false; nmissing := false; nfld := 0; ns := 32; ne := 38 |} [];
+                 T {| nid := 5; nkind := 2; nnamed := true; ncomment := false; nmissing := false; nfld := 0; ns := 40; ne := 50 |} []] in
+  let rules := [{| sr_id := [97]%N; sr_fix := true; sr_kinds := None; sr_hits := [3]%N |};
+                {| sr_id := [98]%N; sr_fix := false; sr_kinds := None; sr_hits := [4]%N |}] in
+  let res := {| res_found := [([97], 3); ([98], 4)]%N; res_unused := [2; 5]%N |} in
+  v_diffs (into_view root rules true res) = [(UNUSED_ID, 2); ([97], 3); (UNUSED_ID, 5)]%N /\
+  v_matches (into_view root rules true res) = [([98], 4)]%N.
+Proof. vm_compute. split; reflexivity. Qed.
+Print Assumptions C14_view_ex.
